@@ -32,6 +32,7 @@ def documents(draw, max_nodes=40, max_depth=5, namespaces=True, ids=True, astral
     use_ns = namespaces and draw(st.integers(0, 2)) > 0
     use_default = use_ns and draw(st.integers(0, 3)) == 0
     use_ids = ids and draw(st.integers(0, 3)) == 0
+    lang_rate = draw(st.sampled_from([7, 7, 7, 1]))    # a quarter of the documents carry xml:lang on every other element (nested, differing values)
     idvals = ['k1', 'k2', 'k3', 'k4', 'k5']
     used_ids = []
     elem_pool = list(ELEMS)
@@ -85,7 +86,7 @@ def documents(draw, max_nodes=40, max_depth=5, namespaces=True, ids=True, astral
                 continue
             seen.add(key)
             attrs.append('%s="%s"' % (an, esc_attr(draw(st.sampled_from(TEXTS)))))
-        if draw(st.integers(0, 7)) == 0:
+        if draw(st.integers(0, lang_rate)) == 0:
             attrs.append('xml:lang="%s"' % draw(st.sampled_from(['en', 'en-US', 'EN', 'fr', 'de'])))
         if use_ids and draw(st.integers(0, 2)) == 0:
             free = [v for v in idvals if v not in used_ids]
